@@ -177,9 +177,21 @@ def rules_from_acl(rng: random.Random, acl: list[dict], depth: int = 0) -> list[
 def gen_case(rng: random.Random, k: int) -> dict:
     v = rng.choice(P.BLOCK_VENDORS)
     rev = P.VENDORS[v][0]
-    stream = "acl-first" if rng.random() < 0.22 else "rule-aligned"
+    x = rng.random()
+    stream = "acl-first" if x < 0.22 else ("shared-children" if x < 0.32 else "rule-aligned")
     n_gen = rng.choice([0, 1, 1, 2, 2, 3])                # 0: one ACL text used as it is (may carry its own names)
-    if stream == "rule-aligned":
+    if stream == "shared-children":
+        # overlapping parent rules of several generators, one of them contributing %global rules: rows matched
+        # by one parent only must not see the other's rules (the compiled ACL is shared by all rows and passes)
+        gparts, old = A.gen_acl_shared_children(rng, rev)
+        n_gen = len(gparts)
+        parts = [(GEN_NAMES[j], p) for j, p in enumerate(gparts)]
+        full = [it for _, p in parts for it in p]
+        rules = rules_from_acl(rng, full)
+        if rng.random() < 0.5:
+            old = sprinkle(rng, old)
+        new = P.mutate_config(rng, old, rules, rate=rng.choice([0.15, 0.3, 0.5]))
+    elif stream == "rule-aligned":
         allow_modes = rng.random() < 0.35
         rules = P.gen_rules(rng, allow_modes=allow_modes)
         rename_to_interface(rng, rules)
